@@ -62,6 +62,9 @@ def run_one(m: dict, props: list[str] | None, tier: str, tests: bool, seed: str)
             if r.returncode == 2:
                 res["checks"][pid]["stderr"] = (r.stdout[-600:] + r.stderr[-600:])
     finally:
+        keep = os.environ.get("MUTANT_KEEP_REPLAYS")
+        if keep and (d / "_verif_out" / "replays").exists():
+            shutil.copytree(d / "_verif_out" / "replays", Path(keep) / m["id"], dirs_exist_ok=True)
         shutil.rmtree(d, ignore_errors=True)
         # replays written while testing a mutant are not evidence about /repo
     return res
